@@ -69,7 +69,7 @@ Definition no_reissue_after_save_of_fresh_by_C04_f64 := no_reissue_after_save_of
 (** non-vacuity of the C04-side hypotheses: a 90-day certificate on day 11 is not due; one issued
     at the instant of the run is fresh (the C01-side hypotheses are exercised in Props/C01.v) *)
 Example issuance_hypotheses_satisfiable :
-  let ce := Cert 7 1 (due_b scale_f64 (i90 (50 * day)) 0 t61) in
+  let ce := {| c_id := 7; c_kid := 1; c_due := due_b scale_f64 (i90 (50 * day)) 0 t61 |} in
   c_due ce = false /\ nothing_due (i90 (50 * day)) 0 t61 /\
   fresh_inputs (i90 t61) t61 /\ admissible (i90 t61) 0 /\
   due_b scale_f64 (i90 t61) 0 t61 = false /\ due_b scale_f64 (i90 0) 0 t61 = true.
